@@ -495,7 +495,7 @@ class Outcome:
         return 'Outcome(%s, %r)' % (self.kind, self.value)
 
 
-QUICK_TIMEOUT_MS = 10000
+QUICK_TIMEOUT_MS = 30000      # wall-clock per obligation; obligations normally take milliseconds, the slowest ~5 s on an idle machine
 
 
 def run_target(target, repo=None, timeout_ms=QUICK_TIMEOUT_MS, tier='quick'):
